@@ -24,7 +24,9 @@ def shared_state_mutations(fn: ast.FunctionDef, shared_pred):
     def root_of(e):
         """shared root an expression is a view of, or None"""
         if isinstance(e, ast.Name):
-            return aliases.get(e.id)
+            if e.id in aliases:
+                return aliases[e.id]
+            return e.id if shared_pred(e.id) else None
         if shared_pred(src(e)):
             return src(e)
         if isinstance(e, ast.Subscript):
@@ -119,3 +121,285 @@ def undefined_self_attrs(mod, cls_name: str, extra_defined=()):
                         and isinstance(n.ctx, ast.Load) and n.attr not in defined and "*" not in defined:
                     reads.append((st, n))
     return reads, defined
+
+
+def derived_state_refresh(cls: ast.ClassDef, source_attr: str):
+    """G-derived-state: attributes of `cls` whose stored value is computed from `self.<source_attr>`
+    (assigned, or filled through a subscript store, in any method) are caches of that attribute.
+    Every method that rebinds `self.<source_attr>` must rebind or clear each of them afterwards.
+    -> (derived: {attr: (node, method)}, missing: [(method_node, assign_node, attr)])"""
+    s_src = f"self.{source_attr}"
+
+    def mentions(e):
+        return any(isinstance(n, ast.Attribute) and src(n) == s_src for n in ast.walk(e))
+
+    def self_attr(t):
+        while isinstance(t, ast.Subscript):
+            t = t.value
+        if isinstance(t, ast.Attribute) and isinstance(t.value, ast.Name) and t.value.id == "self":
+            return t.attr
+        return None
+
+    derived = {}
+    methods = [st for st in cls.body if isinstance(st, ast.FunctionDef)]
+    for m in methods:
+        for n in ast.walk(m):
+            if isinstance(n, ast.Assign) and mentions(n.value):
+                for t in n.targets:
+                    for el in (t.elts if isinstance(t, ast.Tuple) else [t]):
+                        a = self_attr(el)
+                        if a and a != source_attr:
+                            derived.setdefault(a, (n, m.name))
+    missing = []
+    for m in methods:
+        rebinds = [n for n in ast.walk(m) if isinstance(n, ast.Assign)
+                   and any(isinstance(t, ast.Attribute) and src(t) == s_src for t in n.targets)]
+        if not rebinds:
+            continue
+        last = max(rebinds, key=lambda n: n.lineno)
+        for a in derived:
+            ok = False
+            for n in ast.walk(m):
+                if getattr(n, "lineno", 0) < last.lineno:
+                    continue
+                if isinstance(n, ast.Assign) and any(isinstance(t, ast.Attribute) and src(t) == f"self.{a}" for t in n.targets):
+                    ok = True
+                if isinstance(n, ast.Call) and isinstance(n.func, ast.Attribute) and n.func.attr == "clear" \
+                        and src(n.func.value) == f"self.{a}":
+                    ok = True
+            if not ok:
+                missing.append((m, last, a))
+    return derived, missing
+
+
+def stuck_iterations(loop: ast.While):
+    """G-progress: paths through one iteration of `loop` that reach the back edge (end of body or `continue`)
+    without assigning any loop-carried name.  The body is deterministic in its local state, so such a path,
+    if feasible, repeats forever.  Nested loops count as (possible) writes of everything they assign, calls with
+    side effects (method calls on names, subscript stores) count as progress too - only a definitely state-preserving
+    path is returned.  -> (carried names, [path]) with path = list of (test node, taken: bool) + terminator"""
+    assigned = set()
+    for n in ast.walk(loop):
+        if isinstance(n, ast.Name) and isinstance(n.ctx, ast.Store):
+            assigned.add(n.id)
+
+    def reads(e):
+        return {n.id for n in ast.walk(e) if isinstance(n, ast.Name) and isinstance(n.ctx, ast.Load)}
+
+    carried = set(reads(loop.test)) & assigned
+    paths = []       # (decisions, written, effect, end)
+
+    def run(stmts, k, dec, written, effect, cont):
+        """walk stmts[k:], then the continuation `cont` (list of (stmts, k) frames)"""
+        if k == len(stmts):
+            if cont:
+                (s2, k2), rest = cont[0], cont[1:]
+                run(s2, k2, dec, written, effect, rest)
+            else:
+                paths.append((dec, written, effect, "end of body"))
+            return
+        st = stmts[k]
+        if isinstance(st, ast.If):
+            for r in reads(st.test):
+                if r in assigned and r not in written:
+                    carried.add(r)
+            run(st.body, 0, dec + [(st.test, True)], written, effect, [(stmts, k + 1)] + cont)
+            run(st.orelse, 0, dec + [(st.test, False)], written, effect, [(stmts, k + 1)] + cont)
+            return
+        if isinstance(st, (ast.Break, ast.Return, ast.Raise)):
+            return
+        if isinstance(st, ast.Continue):
+            paths.append((dec, written, effect, f"continue (line {st.lineno})"))
+            return
+        if isinstance(st, (ast.While, ast.For, ast.With, ast.Try)):
+            for r in reads(st):
+                if r in assigned and r not in written:
+                    carried.add(r)
+            w = {n.id for n in ast.walk(st) if isinstance(n, ast.Name) and isinstance(n.ctx, ast.Store)}
+            eff = effect or any(isinstance(n, ast.Call) for n in ast.walk(st))
+            run(stmts, k + 1, dec, written | w, eff, cont)
+            return
+        rd = set()
+        wr = set()
+        eff = effect
+        if isinstance(st, ast.Assign):
+            rd = reads(st.value)
+            for t in st.targets:
+                for n in ast.walk(t):
+                    if isinstance(n, ast.Name) and isinstance(n.ctx, ast.Store):
+                        wr.add(n.id)
+                if not isinstance(t, (ast.Name, ast.Tuple)):
+                    eff = True
+                    rd |= reads(t)
+        elif isinstance(st, ast.AugAssign):
+            rd = reads(st.value) | ({st.target.id} if isinstance(st.target, ast.Name) else reads(st.target))
+            if isinstance(st.target, ast.Name):
+                wr.add(st.target.id)
+            else:
+                eff = True
+        else:
+            rd = reads(st)
+        if any(isinstance(n, ast.Call) and isinstance(n.func, ast.Attribute) and isinstance(n.func.value, ast.Name)
+               and n.func.value.id not in ("np", "math") for n in ast.walk(st)):
+            eff = True
+        for r in rd:
+            if r in assigned and r not in written:
+                carried.add(r)
+        run(stmts, k + 1, dec, written | wr, eff, cont)
+
+    run(loop.body, 0, [], frozenset(), False, [])
+    stuck = [(dec, end) for dec, written, effect, end in paths if not effect and not (set(written) & carried)]
+    return carried, stuck, len(paths)
+
+
+CACHE_DECORATORS = ("lru_cache", "cache", "functools.lru_cache", "functools.cache", "cached_property", "functools.cached_property")
+
+
+def memoised_functions(tree: ast.Module):
+    """names of module-level functions (and methods) whose result is memoised by a decorator"""
+    out = set()
+    for n in ast.walk(tree):
+        if isinstance(n, ast.FunctionDef):
+            for d in n.decorator_list:
+                f = d.func if isinstance(d, ast.Call) else d
+                if src(f) in CACHE_DECORATORS:
+                    out.add(n.name)
+    return out
+
+
+def memoised_result_mutations(tree: ast.Module):
+    """G-memo: in-place changes of an object returned by a memoised function: the cache hands out the same
+    object to every later caller with the same arguments.  -> [(function, node, description)]"""
+    memo = memoised_functions(tree)
+    out = []
+    if not memo:
+        return memo, out
+    def pred(s_):
+        return any(s_.startswith(m + "(") or s_.startswith("self." + m + "(") or s_ == "self." + m for m in memo)
+    for fn in [n for n in ast.walk(tree) if isinstance(n, ast.FunctionDef)]:
+        for node, desc in shared_state_mutations(fn, pred):
+            out.append((fn, node, desc.replace("the stored", "the memoised result")))
+    return memo, out
+
+
+_MEMO_SELFTEST = """
+from functools import lru_cache
+@lru_cache(maxsize=None)
+def table(n):
+    return [i for i in range(n)]
+def user(n):
+    t = table(n)
+    t.pop(0)
+    return t
+def reader(n):
+    t = list(table(n))
+    t.pop(0)
+    return t
+"""
+
+
+def memo_selftest():
+    memo, out = memoised_result_mutations(ast.parse(_MEMO_SELFTEST))
+    return memo == {"table"} and [f.name for f, _, _ in out] == ["user"]
+
+
+def stale_cache_keys(fn: ast.FunctionDef):
+    """G-cache-key: `if <guard>: <recompute self.X from parameters>` keeps self.X from the previous call when the
+    guard is false, so the guard must mention every parameter the recomputed value depends on.
+    -> [(if node, attribute, parameters missing from the guard)]"""
+    params = {a.arg for a in fn.args.args + fn.args.kwonlyargs if a.arg != "self"}
+    out = []
+
+    def pnames(e):
+        return {n.id for n in ast.walk(e) if isinstance(n, ast.Name) and n.id in params}
+
+    def self_attr(t):
+        while isinstance(t, ast.Subscript):
+            t = t.value
+        if isinstance(t, ast.Attribute) and isinstance(t.value, ast.Name) and t.value.id == "self":
+            return t.attr
+        return None
+
+    for iff in ast.walk(fn):
+        if not isinstance(iff, ast.If) or iff.orelse:
+            continue
+        # the guard compares against remembered state
+        if not any(isinstance(n, ast.Attribute) and isinstance(n.value, ast.Name) and n.value.id == "self" for n in ast.walk(iff.test)):
+            continue
+        gp = pnames(iff.test)
+        # locals computed inside the guarded block from parameters
+        local_dep = {}
+        writes = []
+        for st in iff.body:
+            for n in ast.walk(st):
+                if isinstance(n, ast.Assign):
+                    dep = pnames(n.value) | {d for x in ast.walk(n.value) if isinstance(x, ast.Name) for d in local_dep.get(x.id, ())}
+                    for t in n.targets:
+                        a = self_attr(t)
+                        if a:
+                            writes.append((a, dep))
+                        elif isinstance(t, ast.Name):
+                            local_dep[t.id] = dep
+                elif isinstance(n, ast.AugAssign):
+                    a = self_attr(n.target)
+                    if a:
+                        writes.append((a, pnames(n.value)))
+                elif isinstance(n, ast.Call):
+                    for k in n.keywords:
+                        if k.arg == "out" and self_attr(k.value):
+                            dep = set()
+                            for x in list(n.args) + [kk.value for kk in n.keywords if kk.arg != "out"]:
+                                dep |= pnames(x) | {d for y in ast.walk(x) if isinstance(y, ast.Name) for d in local_dep.get(y.id, ())}
+                            writes.append((self_attr(k.value), dep))
+        for a, dep in writes:
+            # the remembered key itself (self._last = c) is no cached value
+            missing = dep - gp
+            if missing and dep != gp and not (len(dep) == 1 and dep <= gp):
+                # only values read again outside the guarded block are caches
+                used_outside = any(isinstance(n, ast.Attribute) and n.attr == a and isinstance(n.value, ast.Name) and n.value.id == "self"
+                                   and not any(n is x for x in ast.walk(iff)) for n in ast.walk(fn))
+                if used_outside:
+                    out.append((iff, a, sorted(missing)))
+    return out
+
+
+_CACHE_SELFTEST = """
+class A:
+    def step(self, f, c, dt):
+        if c != self._last:
+            self._feet[:] = self._pts - c * dt
+            self._last = c
+        use(self._feet)
+    def good(self, f, c, dt):
+        if c != self._last or dt != self._lastdt:
+            self._feet[:] = self._pts - c * dt
+            self._last = c
+            self._lastdt = dt
+        use(self._feet)
+"""
+
+
+def cache_selftest():
+    cls = ast.parse(_CACHE_SELFTEST).body[0]
+    a = stale_cache_keys(cls.body[0])
+    b = stale_cache_keys(cls.body[1])
+    return len(a) == 1 and a[0][1] == "_feet" and a[0][2] == ["dt"] and not b
+
+
+def check_cache_keys(chk, rel, cls_name):
+    """rule G5-cache-key over every method of a class"""
+    if not cache_selftest():
+        raise AnalysisError("the cache-key lint no longer recognises its own positive example")
+    cls = chk.mod(rel).cls(cls_name)
+    n = 0
+    for m in [st for st in cls.body if isinstance(st, ast.FunctionDef)]:
+        for iff, a, missing in stale_cache_keys(m):
+            n += 1
+            chk.ob("G5-cache-key", iff, f"self.{a} recomputed only if {src(iff.test)[:60]}", False,
+                   f"`self.{a}` is recomputed from the arguments only when `{src(iff.test)}`, but it also depends on {missing}: a later call "
+                   f"with the same guard value and another {'/'.join(missing)} reuses the value of the previous call",
+                   file=rel, func=f"{cls_name}.{m.name}")
+    chk.ob("G5-cache-key", cls, f"{cls_name}: values kept between calls", n == 0,
+           "no value remembered across calls is reused under a guard that ignores an argument it depends on" if n == 0 else
+           f"{n} remembered value(s) reused under an incomplete guard", file=rel, func=cls_name,
+           nontrivial=False)
